@@ -208,6 +208,55 @@ fn build_case(rng: &mut Rng) -> Option<Case> {
     Some(Case { text, expanded, use_span: (use_start, use_start + use_txt.len()), kind: if in_proc { "in-procedure" } else { "top-level" } })
 }
 
+/// a history of uses and new definitions in one program: the same macro is used several times with the same and
+/// with other argument lists, and macros are defined again (another body, same parameters) between uses; every use
+/// must emit the body that is current at that point
+fn history_case(rng: &mut Rng) -> Option<Case> {
+    let mut lib = rand_lib(rng);
+    if lib.is_empty() {
+        return None;
+    }
+    let defs: String = lib.iter().map(|m| m.def_text()).collect::<Vec<_>>().join("\n");
+    let data = "dlabel: dw 5\n";
+    let mut text = format!("{}{}\nstart:\nclc\n", data, defs);
+    let mut exp = format!("{}start:\nclc\n", data);
+    let mut remembered: Vec<Option<Vec<String>>> = vec![None; lib.len()];
+    let events = 3 + rng.below(7);
+    let mut last_use = (0usize, 0usize);
+    for _ in 0..events {
+        let k = rng.below(lib.len());
+        if rng.chance(1, 3) {
+            // define macro k again: its instruction statements in reverse order behind a marker instruction,
+            // uses of other macros dropped (no new cycles can arise)
+            let mut body: Vec<Stmt> = vec![Stmt::Ins(["cmc", "cld", "std", "sti"][rng.below(4)].to_string())];
+            for st in lib[k].body.iter().rev() {
+                if let Stmt::Ins(t) = st {
+                    body.push(Stmt::Ins(t.clone()));
+                }
+            }
+            lib[k].body = body;
+            text.push_str(&lib[k].def_text());
+            text.push('\n');
+        } else {
+            let args = match &remembered[k] {
+                Some(a) if rng.chance(2, 3) => a.clone(),
+                _ => args_for(rng, &lib[k]),
+            };
+            remembered[k] = Some(args.clone());
+            let use_txt = format!("{}({})", lib[k].name, args.join(","));
+            last_use = (text.len(), text.len() + use_txt.len());
+            text.push_str(&use_txt);
+            text.push('\n');
+            let body = expand(&lib, &lib[k].name, &if lib[k].params.is_empty() { vec![] } else { args }, &mut Vec::new())?;
+            exp.push_str(&body);
+            exp.push('\n');
+        }
+    }
+    text.push_str("stc\n");
+    exp.push_str("stc\n");
+    Some(Case { text, expanded: Some(exp), use_span: last_use, kind: "use-history" })
+}
+
 fn error_cases() -> Vec<Case> {
     let mut v = Vec::new();
     let mk = |defs: &str, use_txt: &str, kind: &'static str| {
@@ -354,6 +403,14 @@ pub fn run(rep: &Report) {
         let mut rng = Rng::new(seed).fork(0xC13_0000 + i as u64);
         if let Some(c) = build_case(&mut rng) {
             judge(rep, &c, None, 1000 + i);
+        }
+    });
+    let nh = if t { 30_000 } else { 500 };
+    par_for(nh, 4, |i| {
+        let mut rng = if i < 100 { Rng::new(0xC13B).fork(i as u64) } else { Rng::new(seed).fork(0xC13B_0000 + i as u64) };
+        if let Some(c) = history_case(&mut rng) {
+            rep.count("programs with several uses and new definitions of the same macros", 1);
+            judge(rep, &c, if i < 100 { Some(format!("hist{}", i)) } else { None }, 5000 + i);
         }
     });
     // deep chains in a child process (the real binary): termination without stack overflow
